@@ -100,10 +100,32 @@ def gen_marks_ref(rng, schema, parent_type, p=0.35):
     return ms
 
 
-def _filler(match):
-    """types needed to reach a valid end from `match` (None if impossible)"""
-    fill = match.fill_before(Fragment.empty, True)
-    return fill
+def _filler(match, depth=0):
+    """nodes needed to reach a valid end from `match` (None if impossible): the harness's own breadth-first search over
+    the automaton's edges (shortest filling by generatable types), independent of the library's fill_before /
+    create_and_fill, which are code under test"""
+    if depth > 8:
+        return None
+    if match.valid_end:
+        return Fragment.empty
+    seen, queue = {id(match)}, [(match, [])]
+    while queue:
+        m, path = queue.pop(0)
+        for e in m.next:
+            t = e.type
+            if t.is_text or t.has_required_attrs() or id(e.next) in seen:
+                continue
+            seen.add(id(e.next))
+            if e.next.valid_end:
+                nodes = []
+                for tp in path + [t]:
+                    inner = Fragment.empty if tp.is_leaf else _filler(tp.content_match, depth + 1)
+                    if inner is None:
+                        return None
+                    nodes.append(Node(tp, {k: a.default for k, a in tp.attrs.items()}, inner, []))
+                return Fragment.from_array(nodes)
+            queue.append((e.next, path + [t]))
+    return None
 
 
 def gen_children(rng, schema, type_, depth, budget):
@@ -152,8 +174,8 @@ def gen_node(rng, schema, type_, parent_type, depth, budget):
     if type_.is_leaf:
         return Node(type_, attrs, None, marks)
     if depth > 6:
-        n = type_.create_and_fill(attrs, None, marks) if not type_.has_required_attrs() or attrs else None
-        return n
+        inner = _filler(type_.content_match)
+        return None if inner is None else Node(type_, attrs, inner, marks)
     kids = gen_children(rng, schema, type_, depth, budget)
     if kids is None:
         return None
@@ -163,7 +185,10 @@ def gen_node(rng, schema, type_, parent_type, depth, budget):
 def gen_doc(rng, schema, budget=30):
     for _ in range(20):
         b = [budget]
-        d = gen_node(rng, schema, schema.top_node_type, None, 0, b)
+        try:
+            d = gen_node(rng, schema, schema.top_node_type, None, 0, b)
+        except RecursionError:
+            d = None
         if d is None:
             continue
         try:
@@ -171,7 +196,11 @@ def gen_doc(rng, schema, budget=30):
         except Exception:  # noqa: BLE001  generator produced something the (possibly broken) validator refuses
             continue
         return d
-    return schema.top_node_type.create_and_fill()
+    top = schema.top_node_type
+    inner = _filler(top.content_match)
+    if inner is not None:
+        return Node(top, {k: a.default for k, a in top.attrs.items()}, inner, [])
+    return top.create_and_fill()
 
 
 def positions(doc):
@@ -333,6 +362,93 @@ def wrappable_ranges(doc):
                 walk(c, offs[i] + 1, depth + 1)
     walk(doc, 0, 0)
     return out
+
+
+def gen_marky_doc(rng, schema):
+    """a document whose textblocks are runs of short text segments carrying varied mark sets, biased towards
+    non-inclusive marks (so that boundaries where several marks start / end at once are common); None if the
+    schema has no marks or no textblock the top node can hold directly"""
+    if not schema.marks:
+        return None
+    blocks = [t for t in schema.nodes.values() if t.is_textblock and not t.has_required_attrs()
+              and schema.top_node_type.content_match.match_type(t) is not None]
+    if not blocks:
+        return None
+    non_incl = [t for t in schema.marks.values() if t.spec.get("inclusive") is False]
+    out = []
+    for _ in range(rng.randint(1, 3)):
+        bt = rng.choice(blocks)
+        allowed = [t for t in schema.marks.values() if bt.allows_mark_type(t)]
+        pool = [t for t in non_incl if t in allowed] * 3 + allowed
+        kids = []
+        if pool and bt.content_match.match_type(schema.nodes["text"]) is not None:
+            for _k in range(rng.randint(2, 6)):
+                ms = Mark.none
+                for _m in range(rng.choice([0, 1, 2, 2, 3])):
+                    t = rng.choice(pool)
+                    ms = Mark(t, gen_attrs(rng, t)).add_to_set(ms)
+                kids.append(schema.text(gen_text(rng, 1, 3), ms))
+        try:
+            out.append(bt.create_checked(None, Fragment.from_array(kids)))
+        except Exception:  # noqa: BLE001
+            return None
+    try:
+        d = schema.top_node_type.create_checked(None, Fragment.from_array(out))
+        d.check()
+        return d
+    except Exception:  # noqa: BLE001
+        return None
+
+
+def gen_exclusion_case(rng, schema):
+    """(doc, from, to, mark M): a range in which inline nodes carrying a mark X that M excludes alternate with nodes
+    that carry X but cannot take M — because they also carry a mark that excludes M while M does not exclude it,
+    or because their textblock does not allow M.  None when the schema has no such constellation."""
+    mts = list(schema.marks.values())
+    rng.shuffle(mts)
+    text_t = schema.nodes.get("text")
+    if text_t is None:
+        return None
+    top = schema.top_node_type
+    blocks = [t for t in schema.nodes.values() if t.is_textblock and not t.has_required_attrs()
+              and t.content_match.match_type(text_t) is not None and top.content_match.match_type(t) is not None]
+    for m_t in mts:
+        xs = [x for x in mts if x is not m_t and m_t.excludes(x)]
+        if not xs:
+            continue
+        x_t = rng.choice(xs)
+        blockers = [b for b in mts if b is not m_t and b is not x_t and b.excludes(m_t) and not m_t.excludes(b)
+                    and not b.excludes(x_t) and not x_t.excludes(b)]
+        ok_blocks = [t for t in blocks if t.allows_mark_type(m_t) and t.allows_mark_type(x_t)]
+        no_m_blocks = [t for t in blocks if not t.allows_mark_type(m_t) and t.allows_mark_type(x_t)]
+        M, X = Mark(m_t, gen_attrs(rng, m_t)), Mark(x_t, gen_attrs(rng, x_t))
+        try:
+            if blockers and ok_blocks and rng.random() < 0.6:
+                bt = rng.choice([t for t in ok_blocks if all(t.allows_mark_type(b) for b in blockers)] or ok_blocks)
+                B = Mark(rng.choice(blockers), {})
+                B = Mark(B.type, gen_attrs(rng, B.type))
+                segs = []
+                for i in range(rng.randint(3, 5)):
+                    ms = X.add_to_set(Mark.none)
+                    if i % 2 == 1:
+                        ms = B.add_to_set(ms)
+                    segs.append(schema.text(gen_text(rng, 1, 2, plain=True), ms))
+                doc = top.create_checked(None, Fragment.from_array([bt.create_checked(None, Fragment.from_array(segs))]))
+            elif no_m_blocks and ok_blocks:
+                kids = []
+                for i in range(rng.randint(3, 4)):
+                    bt = rng.choice(no_m_blocks if i % 2 == 1 else ok_blocks)
+                    kids.append(bt.create_checked(None, Fragment.from_array([schema.text(gen_text(rng, 1, 3, plain=True), [X])])))
+                doc = top.create_checked(None, Fragment.from_array(kids))
+            else:
+                continue
+            doc.check()
+        except Exception:  # noqa: BLE001
+            continue
+        size = doc.content.size
+        f = rng.choice([0, 1, 1])
+        return doc, f, size - rng.choice([0, 1, 1]), M
+    return None
 
 
 def frag_boundaries(fragment):
